@@ -91,6 +91,10 @@ func c14Gen(r *rand.Rand, tier string) []Case {
 			fmt.Sprintf("fund %d 5000", m2), fmt.Sprintf("burn %d %d ?", m2, 1+r.Intn(2000)))
 		// a redirected burn of several denominations at once (deposits of a vetoed proposal in two denominations)
 		c = append(c, fmt.Sprintf("burn2 %d %d %d", 1+r.Intn(3), 1+r.Intn(1_000_000), 1+r.Intn(1_000_000)))
+		// the same kinds of burn while transfers of the denominations are switched off in the bank module
+		m3 := 1 + r.Intn(3)
+		c = append(c, "sendoff", fmt.Sprintf("fund %d 5000", m3), fmt.Sprintf("burn %d %d ?", m3, 1+r.Intn(2000)), fmt.Sprintf("slash %s %d", pick(r, kinds), 1+r.Intn(999)),
+			fmt.Sprintf("govburn %d", 1+r.Intn(1_000_000)), fmt.Sprintf("burn2 %d %d %d", 1+r.Intn(3), 1+r.Intn(1_000_000), 1+r.Intn(1_000_000)), "sendon")
 		out = append(out, c)
 	}
 	return out
@@ -202,6 +206,13 @@ func c14Exec(c Case) (outs []string, fails []Failure, tags []string) {
 						fails = append(fails, Failure{Signature: "C14:plain-burn-changed-meaning", What: fmt.Sprintf("burn of %s by %s: supply −%s, community pool +%s", amt, c14Mods[m], sub(pre.sup, post.sup), sub(post.pool, pre.pool)), Case: c[:i+1]})
 					}
 				}
+			case "sendoff", "sendon":
+				// transfers of the denomination are switched off / on in the bank module (a launch phase, a frozen token):
+				// the redirect moves coins between module accounts all the same
+				app.BankKeeper.SetSendEnabled(ctx, denom, f[0] == "sendon")
+				app.BankKeeper.SetSendEnabled(ctx, "bcoin", f[0] == "sendon")
+				tags = append(tags, "transfers-"+strings.TrimPrefix(f[0], "send"))
+				out = "skip"
 			case "fundpool":
 				// the distribution module's own write to the fee pool (MsgFundCommunityPool)
 				coins := sdk.NewCoins(sdk.NewCoin(denom, sdkmath.NewIntFromBigInt(mustBig(f[1]))))
